@@ -206,6 +206,10 @@ const (
 	KFatal      = "fatal" // Str = message
 	KNote       = "note"
 	KBoot       = "boot" // Cfg = bootstrap configuration (static voters)
+	KPuppet      = "puppet"       // puppet mode on
+	KWorldCommit = "world.commit" // Ents declared committed by the scripted world
+	KWorldSnap   = "world.snap"   // a snapshot a scripted sender has (Idx, Term, Num=size, Hash, Cnt, Chn)
+	KProbe       = "probe"        // Str=kind, Flag=expected decision, Msg=request+reply, Idx/Term = true last index/term
 )
 
 func HashBytes(b []byte) uint64 {
